@@ -896,6 +896,21 @@ def c10(tier, seed):
         batch.append(dict(lines=lines, pool=POOL_NAMES[i % len(POOL_NAMES)], tag='C10 pair %s | %s' % (sorted(map(sorted, fa)), sorted(map(sorted, fb)))))
     for b in batch:
         yield b
+    # same names, orders and BASES but different faces: `addSimplex` accepts three edges that do not close up
+    # (ab, bc, cd), so a "triangle" t on the points a..d can sit on any three of the four edges of a square;
+    # likewise a "tetrahedron" on four of the five triangles over five points is not needed: the square suffices
+    # to separate "same faces" from "same basis".  All ordered pairs of the four variants (+ one without t).
+    sq = ['add %s u1 [] -', 'add %s u2 [] -', 'add %s u3 [] -', 'add %s u4 [] -', 'add %s u12 [u1,u2] -', 'add %s u23 [u2,u3] -',
+          'add %s u34 [u3,u4] -', 'add %s u14 [u1,u4] -']
+    edges = ['u12', 'u23', 'u34', 'u14']
+    variants = [list(q) for q in itertools.combinations(edges, 3)] + [None]
+    for ia, va in enumerate(variants):
+        for ib, vb in enumerate(variants):
+            lines = []
+            for h, v in (('c0', va), ('c1', vb)):
+                lines += ['new ' + h] + [l % h for l in sq] + (['add %s u99 %s -' % (h, Lst(v))] if v else [])
+            lines += ['!cmp c0 c1'] + ['q c0 %s c1' % op for op in ops] + ['obs c0', 'obs c1']
+            yield dict(lines=lines, pool=POOL_NAMES[(ia + ib) % len(POOL_NAMES)], tag='C10 same basis, different faces %d/%d' % (ia, ib))
     # same names, different order or faces; copies; deletions
     for j in range(1000 if tier == 'quick' else 8000):
         pool = POOL_NAMES[j % len(POOL_NAMES)]
@@ -1403,6 +1418,23 @@ def c15(tier, seed):
         L.do('relabeldisj c0 c1'); L.do('obs c0')
         L.do('compose c0 c1 c2'); L.do('obs c2')
         yield L.case()
+        # the names `relabelDisjointFrom` would generate first are already in use: by the other complex (e.g. one that
+        # came out of an earlier disjoint relabelling and had the original point added again), by the receiver, or both
+        P0 = ['u%d' % p for p in pts_of(fam)]
+        if P0:
+            L = Live(pool, 'C15 relabelDisjointFrom, generated names taken')
+            L.many(base); L.do('new c1')
+            for p in P0:
+                L.do('add c1 %s [] -' % p)
+            for j, p in enumerate(P0):
+                if j % 3 != 2:
+                    L.do('add c1 w0.1.%s [] -' % p)          # in the other complex
+                if j % 3 != 0:
+                    L.do('add c0 w0.%d.%s [] -' % (1 if j % 3 == 2 else 2, p))      # in the receiver
+            L.do('!snap c0 c1')
+            L.do('relabeldisj c0 c1'); L.do('!disjoint-names c0 c1'); L.do('!same c1'); L.do('obs c0'); L.do('!inv c0')
+            L.do('compose c0 c1 c2'); L.do('obs c2')
+            yield L.case()
         ren = {t: 'u%d' % (450 + j) for j, t in enumerate(names)}
         for j, t in enumerate(rng.sample(names, min(3, len(names)))):
             if rng.random() < 0.5:
